@@ -1315,6 +1315,13 @@ class Verifier(Exec):
                 # a loop-free closure of this very function without its own contract: executed in place
                 self.ctx.notes.append('closure %s executed in place (no separate contract)' % short_fn(callee))
                 return self.inline_call(st, ins, callee, args, fv.bindings)
+            if spec is None and callee in self.prog.funcs and not self.auto_pure(callee) and self.opts.get('depth', 0) < 3 \
+                    and self.prog.funcs[callee].get('blocks') and not S.CFG(self.prog.funcs[callee]).loops \
+                    and self.prog.funcs[callee].get('pkg') == self.fn.get('pkg') and callee != self.fname:
+                # a loop-free function of the same package that has no contract (typically a small helper, or a piece
+                # someone extracted from this function): executed in place, like a function literal
+                self.ctx.notes.append('%s has no contract: executed in place at its call in %s' % (short_fn(callee), short_fn(self.fname)))
+                return self.inline_call(st, ins, callee, args, fv.bindings)
             if spec is None:
                 return self.unknown_call(st, ins, callee)
             return self.contract_call(st, ins, callee, spec, args, fv.bindings)
